@@ -849,6 +849,10 @@ impl Engine for C04 {
             ));
         }
         spaces.push((
+            "corpus and generated single-module programs with one matched pair of parentheses removed".into(),
+            p_unparen(),
+        ));
+        spaces.push((
             "corpus with one token of the full alphabet inserted at one site".into(),
             p_ins(if thorough { 100_000 } else { 40 }),
         ));
